@@ -29,7 +29,7 @@ ASSUMPTIONS = [
 ]
 COMPONENTS = {"real": ["Detector.save / load / to_asdf / from_asdf / to_dict / from_dict for CCD, CMOS, MKID, APD", "pyxel.models.load_detector / save_detector inside run_mode", "asdf on a real scratch filesystem"], "stub": ["HDF5 backend: not available"]}
 BUDGET = {"quick": {"n": 400, "wall": 100, "determinism": 4}, "thorough": {"n": 70000, "wall": 1500, "determinism": 12}}
-REQUIRED_REACH = ["type:CCD", "type:CMOS", "type:MKID", "type:APD", "photon3d", "clusters", "scene", "data", "phase", "load_in_pipeline", "load_repeated_in_one_run", "data_groups_without_variables", "roundtrips", "hdf5_not_run", "empty_containers"]
+REQUIRED_REACH = ["type:CCD", "type:CMOS", "type:MKID", "type:APD", "photon3d", "clusters", "scene", "data", "phase", "load_in_pipeline", "load_repeated_in_one_run", "dark:photon", "dark:pixel", "dark:image", "wavelength_description", "wavelength_fractional_resolution", "single_wavelength", "data_groups_without_variables", "roundtrips", "hdf5_not_run", "empty_containers"]
 
 WRITES = ["photon", "charge", "pixel", "signal", "image", "scene", "data", "clusters"]
 
@@ -53,6 +53,16 @@ def generate(rng, tier):
         take = [pool.pop() for _ in range(min(len(pool), rng.randint(1, 3)))]
         models.append({"name": f"w{k}", "func": world.PROBE, "enabled": True, "arguments": {"tag": f"w{k}", "level": rng.choice([1, 2.5, 7]), "write": take, "image_dtype": rng.choice(["uint8", "uint16", "uint32", "uint64"]), "float_dtype": "float64"}})
         k += 1
+    for m in models:
+        # dark frames: a written bucket whose every element is zero is still an initialised bucket
+        dark = [b for b in m["arguments"]["write"] if b in ("photon", "photon3d", "pixel", "signal", "image", "charge") and rng.random() < 0.2]
+        if dark:
+            m["arguments"]["dark"] = dark
+    w = rng.random()
+    if w < 0.2:
+        det["wavelength"] = rng.choice([450.0, 620.5, 2200.0])
+    elif w < 0.5:
+        det["wavelength"] = {"cut_on": rng.choice([400.0, 512.5]), "cut_off": rng.choice([700.0, 950.25]), "resolution": rng.choice([1, 10, 25, 2.5, 0.5])}
     groups = rng.sample(ref.CANONICAL_GROUPS, max(1, len(models)))
     groups.sort(key=ref.CANONICAL_GROUPS.index)
     pipe: dict[str, list] = {}
@@ -123,6 +133,16 @@ def execute(scn):
             stats[key] = 1
     if len(written) <= 1:
         stats["empty_containers"] = 1
+    darks = sorted({b for _, m in world.all_models(scn) for b in (m["arguments"].get("dark") or ())})
+    for b in darks:
+        stats["dark:" + b] = 1
+    wl = scn["detector"].get("wavelength")
+    if isinstance(wl, dict):
+        stats["wavelength_description"] = 1
+        if float(wl["resolution"]) != int(wl["resolution"]):
+            stats["wavelength_fractional_resolution"] = 1
+    elif wl is not None:
+        stats["single_wavelength"] = 1
     stats["hdf5_not_run"] = 1
     feat = dtype + "+" + "+".join(sorted(written & {"photon3d", "clusters", "scene", "data", "data_empty", "phase"}) or ["plain"])
     h = hashlib.sha256()
